@@ -54,7 +54,7 @@ manifest = {
     ],
     "checks": checks,
     "not_applicable": [],
-    "notes": "Known findings (recorded, not repaired) and fixed findings (repaired by fix: commits in /repo) are listed in /verif/known_findings.txt; DESIGN.md §14 is the build-phase record; seeded/ holds 212 independently written breaking changes (seven rounds) with RESULTS.md (rounds 1-3) and RESULTS-round4/5/6/7.md (which check reports which); DESIGN.md §16 is the record of the third session.",
+    "notes": "Known findings (recorded, not repaired) and fixed findings (repaired by fix: commits in /repo) are listed in /verif/known_findings.txt; DESIGN.md §14 is the build-phase record; seeded/ holds 220 independently written breaking changes (seven rounds) with RESULTS.md (rounds 1-3) and RESULTS-round4/5/6/7.md (which check reports which); DESIGN.md §16 is the record of the third session.",
 }
 json.dump(manifest, open("MANIFEST.json", "w"), indent=1)
 print("written", len(checks), "checks")
